@@ -87,6 +87,8 @@ class TALFileHandler(FileHandler):
             self.entry.encodedmimetype = None
             self.entry.realencoding = self.entry.encoding
             self.entry.encoding = None
+            # The expanded document is not the size of the template.
+            self.entry.size = None
             self.entry.type = self.entry.guesstype()
 
         return self.entry
